@@ -31,6 +31,9 @@ package leveldb
 //verif:obligation fn=VerifC20Reads args=2,0,0;2,1,0;2,2,10;2,2,20;2,2,30;11,0,0;11,1,0;11,2,10;11,2,20;11,2,30
 //verif:obligation fn=VerifC20Start args=0,0,-1;0,0,1;1,0,-1;1,0,0;1,0,1;1,0,2 validate=12
 //verif:obligation fn=VerifC20Start args=2,33,-1;2,33,0;2,33,1;2,33,2;11,33,-1;11,33,0;11,33,1;11,33,2
+//verif:obligation fn=VerifC20Reverse args=0,0,-1;1,0,-1;1,0,1 validate=12
+//verif:obligation fn=VerifC20Reverse args=11,33,-1
+//verif:obligation fn=VerifC20Alias args=0;1;2 validate=12
 
 import (
 	"bytes"
@@ -497,5 +500,100 @@ func VerifC20Start(shape int, kinds int, startLen int) {
 	if len(rest) > 0 {
 		verifReach("VerifC20Start:yields-more")
 	}
+	p.close()
+}
+
+// VerifC20Reverse: as VerifC20Start with isReverse = true. Reverse iteration is
+// part of the dbm.DB interface but not of the property statement (which speaks
+// of forward iterations) and has no caller in the node; its assertions carry
+// their own labels (reverse-...).
+func VerifC20Reverse(shape int, kinds int, startLen int) {
+	p := verifC20Open()
+	hist := verifC20History(p, shape, kinds)
+	maxKeys := len(hist)
+	pre := verifC20Key("prefix")
+	var start []byte
+	if startLen >= 0 {
+		start = verifBytesN("start", startLen)
+	}
+	keys := verifC20Drain(p.mem.Iterator(), p.ldb.Iterator(), maxKeys, "iter")
+
+	stray, positioned, emptyLive, below := false, false, false, false
+	for _, k := range keys {
+		fromStart := verifC20Or(start == nil, bytes.Compare(k, start) >= 0)
+		hasPre := bytes.HasPrefix(k, pre)
+		stray = verifC20Or(stray, verifC20And(fromStart, !hasPre))
+		positioned = verifC20Or(positioned, verifC20And(fromStart, verifC20And(hasPre, start != nil)))
+		emptyLive = verifC20Or(emptyLive, len(k) == 0)
+		below = verifC20Or(below, !fromStart)
+	}
+	verifKnown("KF-C20-START-PREFIX", stray)
+	verifKnown("KF-C20-UNPOSITIONED-VALUE", verifC20And(!positioned, emptyLive))
+	// region of KF-C20-REVERSE-START: start given and a live key below it, or two or more live keys
+	verifKnown("KF-C20-REVERSE-START", verifC20And(start != nil, verifC20Or(below, len(keys) >= 2)))
+
+	a := p.mem.IteratorPrefixWithStart(verifC20Copy(pre), verifC20CopyNil(start), true)
+	b := p.ldb.IteratorPrefixWithStart(verifC20Copy(pre), verifC20CopyNil(start), true)
+	k1, k2 := a.Key(), b.Key()
+	v1, v2 := a.Value(), b.Value()
+	verifObserveBytes("memFirstKey", k1)
+	verifObserveBytes("ldbFirstKey", k2)
+	verifObserveBytes("memFirstValue", v1)
+	verifObserveBytes("ldbFirstValue", v2)
+	verifAssert(bytes.Equal(k1, k2), "reverse-iter-first-key-equal")
+	verifAssert(bytes.Equal(v1, v2), "reverse-iter-first-value-equal")
+	rest := verifC20Drain(a, b, maxKeys, "reverse-iter")
+	verifObserveU64("yielded", uint64(len(rest)))
+	if len(rest) >= 2 {
+		verifReach("VerifC20Reverse:descends-over-two-keys")
+	}
+	if len(rest) == 0 {
+		verifReach("VerifC20Reverse:yields-nothing")
+	}
+	p.close()
+}
+
+// VerifC20Alias: the caller reuses a buffer it has handed to the backend.
+//   mode 0: Set(k, v), then v is overwritten, then Get(k)
+//   mode 1: batch.Set(k, v), then k and v are overwritten, then Write, then Get(k) and Get(k')
+//   mode 2: Set(k, v), then k is overwritten, then Get(k) and Get(k')
+// goleveldb documents that arguments may be modified after Put / Batch.Put return.
+func VerifC20Alias(mode int) {
+	p := verifC20Open()
+	k := verifBytesN("key", 1)
+	v := verifBytesN("value", 1)
+	k2 := verifBytesN("newKey", 1)
+	v2 := verifBytesN("newValue", 1)
+	var got [2][2][]byte
+	for i, db := range []DB{p.mem, p.ldb} {
+		kb, vb := verifC20Copy(k), verifC20Copy(v)
+		switch mode {
+		case 0:
+			db.Set(kb, vb)
+			vb[0] = v2[0]
+		case 1:
+			b := db.NewBatch()
+			b.Set(kb, vb)
+			kb[0], vb[0] = k2[0], v2[0]
+			b.Write()
+		case 2:
+			db.Set(kb, vb)
+			kb[0] = k2[0]
+		}
+		got[i][0] = db.Get(verifC20Copy(k))
+		got[i][1] = db.Get(verifC20Copy(k2))
+	}
+	verifObserveBytes("memGetKey", got[0][0])
+	verifObserveBytes("ldbGetKey", got[1][0])
+	verifObserveBytes("memGetNewKey", got[0][1])
+	verifObserveBytes("ldbGetNewKey", got[1][1])
+	// region of KF-C20-ALIAS: a value buffer, or a key/value buffer queued in a batch, changed after the call
+	verifKnown("KF-C20-ALIAS", verifC20And(mode != 2, verifC20Or(v[0] != v2[0], verifC20And(mode == 1, k[0] != k2[0]))))
+	verifAssert(bytes.Equal(got[0][0], got[1][0]), "alias-get-equal")
+	verifAssert((got[0][0] == nil) == (got[1][0] == nil), "alias-get-nil-agree")
+	verifAssert(bytes.Equal(got[0][1], got[1][1]), "alias-get-equal")
+	verifAssert((got[0][1] == nil) == (got[1][1] == nil), "alias-get-nil-agree")
+	verifAssert(got[1][0] != nil, "alias-stored-under-the-key-given")
+	verifReach("VerifC20Alias:end")
 	p.close()
 }
